@@ -33,3 +33,4 @@ def run(P, R, tier):
 
 
 EXPLANATION += ' Also: (DIM.ABS) no dimensioned quantity is compared with an absolute literal or tested with an absolute tolerance (np.isclose / allclose defaults).'
+EXPLANATION += " (DIM.TRANSL) for the distance functions only, a common shift of samples and centroids is also decided: the returned squared distances are built from differences of operands that move together (centred data against uncentred centroids, or norms expanded into terms that each grow with the offset, are reported); shifts in parameter updates that cancel by design of the sufficient statistics remain undecided."
